@@ -4,12 +4,42 @@ import os
 import sys
 
 os.environ.setdefault("JAX_PLATFORMS", "cpu")
-x64 = sys.argv[1] == "x64"
+mode = sys.argv[1]
+x64 = mode in ("x64", "switch")
 seed = int(sys.argv[2])
 names = sys.argv[3].split(",")
 import jax  # noqa: E402
 
-if x64:
+
+def exact_block(names, seed):
+    """closed-form comparison of the linear classes and Wave (see below); returns {name: record}"""
+    import numpy as _np
+    from props import c01, steppers as _S
+    res = {}
+    for i, name in enumerate(list(dict.fromkeys([n for n in names if n in _S.LINEAR] + ["Advection", "Diffusion"]))):
+        D = (i + seed) % 3 + 1
+        N = {1: 16, 2: 8, 3: 6}[D]
+        r = c01.probe_exact(name, D, N, 0.1, seed + i)
+        if "err" in r:
+            res[name] = {"D": D, "N": N, "err": r["err"], "scale": r["scale"], "rounding_allowance": r["rounding_allowance"], "args": {"name": name, "D": D, "N": N, "dt": 0.1, "seed": seed + i}}
+    for D in (1, 2, 3):
+        N = {1: 16, 2: 8, 3: 6}[D]
+        r = c01.probe_wave(D, N, 0.1, seed + D)
+        res[f"Wave[{D}d]"] = {"D": D, "N": N, "err": r["err"], "scale": r["scale"], "rounding_allowance": r["rounding_allowance"], "args": {"D": D, "N": N, "dt": 0.1, "seed": seed + D}}
+    return res
+
+
+if mode == "switch":
+    # ONE process, default session first: build and run the same steppers on the same grids in single precision (results
+    # discarded), THEN enable x64 — whatever the first session left behind (module-level caches, memoised arrays) must
+    # not leak into the double-precision session
+    sys.path.insert(0, os.path.dirname(os.path.dirname(os.path.abspath(__file__))))
+    try:
+        exact_block(names, seed)
+    except Exception as e:   # noqa: BLE001
+        print("C19NOTE single-precision warm-up raised", type(e).__name__, file=sys.stderr)
+    jax.config.update("jax_enable_x64", True)
+elif x64:
     jax.config.update("jax_enable_x64", True)
 import jax.numpy as jnp  # noqa: E402
 import numpy as np  # noqa: E402
@@ -87,17 +117,6 @@ out["steppers"]["Wave"] = {
 # double-precision fidelity: in the x64 session the linear classes (closed-form solution known) are accurate to DOUBLE
 # rounding, not merely to single — a result that went through a single-precision constant or cast somewhere is a silent
 # fall-back to another precision although its dtype says float64
-out["exact"] = {}
-if x64:
-    from props import c01  # noqa: E402
-    for i, name in enumerate(list(dict.fromkeys([n for n in names if n in S.LINEAR] + ["Advection", "Diffusion"]))):
-        D = (i + seed) % 3 + 1
-        N = {1: 16, 2: 8, 3: 6}[D]
-        r = c01.probe_exact(name, D, N, 0.1, seed + i)
-        if "err" in r:
-            out["exact"][name] = {"D": D, "N": N, "err": r["err"], "scale": r["scale"], "rounding_allowance": r["rounding_allowance"], "args": {"name": name, "D": D, "N": N, "dt": 0.1, "seed": seed + i}}
-    for D in (1, 2, 3):
-        N = {1: 16, 2: 8, 3: 6}[D]
-        r = c01.probe_wave(D, N, 0.1, seed + D)
-        out["exact"][f"Wave[{D}d]"] = {"D": D, "N": N, "err": r["err"], "scale": r["scale"], "rounding_allowance": r["rounding_allowance"], "args": {"D": D, "N": N, "dt": 0.1, "seed": seed + D}}
+out["exact"] = exact_block(names, seed) if x64 else {}
+out["mode"] = mode
 print("C19JSON" + json.dumps(out))
